@@ -20,6 +20,8 @@ if os.path.isdir(O):
         if not os.path.exists(mp):
             continue
         m = json.load(open(mp))
+        if m.get('counted') is False:
+            continue
         for chk, r in sorted(m.get('results', {}).items()):
             own.append((name, chk, r['status'], r.get('first', '')))
 def esc(s):
